@@ -81,6 +81,11 @@ class Worker(object):
             self.ref_cache[k] = out
         return self.ref_cache[k]
 
+    def vocab(self):
+        if getattr(self, "_vocab", None) is None:
+            self._vocab = E.Vocab(self.replica.call("vocab"))
+        return self._vocab
+
     def ref_detail(self, group):
         d = self.replica.call("digest", "public", [group], None, True)
         return d[group][1]
@@ -115,7 +120,7 @@ class Worker(object):
                     return
                 res = node(nid).call("batch", [e for _, e in pending], want_abstract)
                 for (i, ev), (out, ab) in zip(pending, res):
-                    if ev[0] == "dump" and isinstance(out, list) and out[:1] == ["B"]:
+                    if ev[0] in ("dump", "dump_formula", "dump_container") and isinstance(out, list) and out[:1] == ["B"]:
                         msgs[ev[1]] = out[1]
                         out = ["B", C._h(out[1]), len(out[1])]
                     outcomes[i] = out
@@ -166,6 +171,8 @@ class Worker(object):
             from . import judge_c10, judge_c08
             if prop == "C10":
                 judge_c10.finish(self, run, trace, nodes, node)
+            elif prop == "C10CF":
+                judge_c10.finish_cf(self, run, trace, nodes, node)
             else:
                 judge_c08.finish(self, run, trace, nodes, node)
 
